@@ -365,6 +365,9 @@ impl CellBuffer {
         // Combine the css, so as not to have a <!-- separator --> comment which
         // was intended only for text node added after a previous text node.
         let css = [element_styles, legend_css].join("\n");
+        // the style sheet is a text node like any other: escape it
+        #[cfg(not(feature = "with-dom"))]
+        let css = crate::fragment::escape_html_text(&css);
         html::tags::style([], [text(css)])
     }
 
